@@ -59,6 +59,7 @@ type HistCfg struct {
 	PreReset          bool // sample `reflog` before every reset
 	Idempotent        bool // repeat a successful add and demand that nothing changes
 	ReadBackCommit    bool // after a successful commit: `log -n 2` and `cat-file -p <commit>`
+	NoDerive          bool // no command-model correspondence lines (the repository is being damaged on purpose)
 	JunkSweep         bool // every 8th history ends with the whole table of malformed invocations
 	StatusAfterCommit bool // `status` right after a successful commit must list nothing staged
 	CommitFirst       bool // start with one commit
@@ -217,6 +218,15 @@ func (h *Hist) W(op, path string, data []byte) {
 		if n := len(h.past[path]); n == 0 || string(h.past[path][n-1]) != string(data) {
 			h.past[path] = append(h.past[path], data)
 		}
+	case "damage":
+		// overwrite one of Goit's own files with the given (damaged) bytes; only files that exist
+		if st, err := os.Stat(p); err != nil || st.IsDir() {
+			return
+		}
+		os.Chmod(p, 0o644)
+		if err := os.WriteFile(p, data, 0o644); err != nil {
+			return
+		}
 	case "rm":
 		if st, err := os.Stat(p); err != nil || st.IsDir() {
 			return
@@ -299,15 +309,17 @@ func (h *Hist) X(tz int, args ...string) *Trans {
 		h.viols = append(h.viols, Finding{Kind: "spec-violation", Clause: v.Clause, Step: t.StepNo, Impl: res.Class,
 			Detail: v.Detail + " | cmd: goit " + strings.Join(args, " ") + " | stderr: " + clip(strings.TrimSpace(res.Stderr), 200), Sig: sig})
 	}
-	if h.cfg.AbsRefine {
+	if h.cfg.AbsRefine && !h.cfg.NoDerive {
 		if d := deriveAbsLine(t); d != nil {
 			d.Step = t.StepNo
 			h.derived = append(h.derived, *d)
 		}
 	}
-	if d := deriveCmdLine(t); d != nil {
-		d.Step = t.StepNo
-		h.derived = append(h.derived, *d)
+	if !h.cfg.NoDerive {
+		if d := deriveCmdLine(t); d != nil {
+			d.Step = t.StepNo
+			h.derived = append(h.derived, *d)
+		}
 	}
 	// ghost bookkeeping
 	if args[0] == "commit" && res.Class == "ok" {
@@ -849,6 +861,90 @@ func (h *Hist) step() {
 			h.X(tz, "rm", d)
 		}
 		h.X(tz, "status")
+	case "damage":
+		// damage one file of the repository (truncation, one byte substituted or deleted, emptied, two object
+		// files swapped), then look at the repository with every read-only command
+		var files []string
+		filepath.Walk(filepath.Join(h.dir, ".goit"), func(p string, info os.FileInfo, err error) error {
+			if err == nil && !info.IsDir() {
+				if rel, e := filepath.Rel(h.dir, p); e == nil && !strings.Contains(filepath.Base(rel), "tmp") {
+					files = append(files, rel)
+				}
+			}
+			return nil
+		})
+		sort.Strings(files)
+		if len(files) == 0 {
+			break
+		}
+		// prefer the small control files now and then: they are few among many objects
+		f := files[r.intn(len(files))]
+		if r.chance(1, 2) {
+			var ctl []string
+			for _, x := range files {
+				if !strings.Contains(x, "/objects/") {
+					ctl = append(ctl, x)
+				}
+			}
+			if len(ctl) > 0 {
+				f = ctl[r.intn(len(ctl))]
+			}
+		}
+		old, err := os.ReadFile(filepath.Join(h.dir, f))
+		if err != nil {
+			break
+		}
+		nd := append([]byte{}, old...)
+		switch k := r.intn(6); {
+		case k == 0 || len(nd) == 0:
+			nd = nil
+		case k == 1:
+			nd = nd[:r.intn(len(nd))]
+		case k == 2:
+			i := r.intn(len(nd))
+			nd[i] = r.pickByte([]byte{0, 10, 32, 47, 255, nd[i] + 1, nd[i] - 1, '0', 'g'})
+		case k == 3:
+			i := r.intn(len(nd))
+			nd = append(nd[:i], nd[i+1:]...)
+		case k == 4 && strings.Contains(f, "/objects/"):
+			// another object's bytes under this name
+			var objs []string
+			for _, x := range files {
+				if strings.Contains(x, "/objects/") && x != f {
+					objs = append(objs, x)
+				}
+			}
+			if len(objs) > 0 {
+				if b, err := os.ReadFile(filepath.Join(h.dir, objs[r.intn(len(objs))])); err == nil {
+					nd = b
+				}
+			}
+		default:
+			nd = append(nd, r.bytesN(1+r.intn(8))...)
+		}
+		h.W("damage", f, nd)
+		var ids []string
+		for id := range h.obs.Objects {
+			ids = append(ids, id)
+		}
+		sort.Strings(ids)
+		for _, c := range [][]string{{"status"}, {"log"}, {"reflog"}, {"ls-files", "-s"}, {"branch", "--list"}, {"rev-parse", "HEAD"}, {"write-tree"}} {
+			h.X(tz, c...)
+		}
+		for i := 0; i < 3 && len(ids) > 0; i++ {
+			h.X(tz, "cat-file", r.pick([]string{"-p", "-t"}), ids[r.intn(len(ids))])
+		}
+		if strings.Contains(f, "/objects/") {
+			id := strings.Replace(strings.TrimPrefix(f, ".goit/objects/"), "/", "", 1)
+			h.X(tz, "cat-file", "-p", id)
+			h.X(tz, "cat-file", "-t", id)
+		}
+		// and with a few modifying commands: they must fail cleanly or work, never crash
+		if r.chance(1, 2) {
+			h.X(tz, r.pick([]string{"add", "commit", "reset", "restore", "switch"}), r.pick([]string{".", "-m", "HEAD@{0}", "main"}))
+		}
+		// put the file back so that the history can go on
+		h.W("damage", f, old)
 	case "edit-same-size":
 		// change one byte of a file without changing its length (nothing but the bytes tells it apart)
 		if f, ok := h.pickFile(); ok {
